@@ -98,7 +98,11 @@ pub fn gen(args: &Args) {
             1 => (days / workers as i64 + r.range(-1, 1)).max(0),
             _ => r.range(0, 400),
         } as usize;
-        let start = date_of_dn(r.range(dn_of(ymd(1600, 1, 1)), dn_of(ymd(2380, 1, 1))));
+        let mut start = date_of_dn(r.range(dn_of(ymd(1600, 1, 1)), dn_of(ymd(2380, 1, 1))));
+        if run % 16 == 5 {
+            // calendar seams of the library's Julian-day formula inside the range (1582 reform, year 0 / 1, Julian leap day)
+            start = *[ymd(1582, 9, 20), ymd(1582, 10, 10), ymd(0, 12, 1), ymd(1500, 2, 1)][..].get((r.next() % 4) as usize).unwrap();
+        }
         let end = start + chrono::Duration::days(days - 1);
         let lon = r.range(-1_800_000, 1_800_000);
         let site = Site { dlat: 0, lat: r.range(-480_000, 480_000), lon, el: 0, gmt: natural_gmt(lon) };
